@@ -165,6 +165,7 @@ class C07(Prop):
             cfg["mode"] = "hier"
             cfg["unnamed"] = rng.choice([0.0, 0.3, 1.0])
             cfg["child_props"] = True
+            cfg["late_permute"] = rng.choice([0.0, 0.0, 0.4])
             cfg["hostility"] = 0.05
             cfg["names"] = "plain"
             cfg["name_rate"] = 0.5
